@@ -94,6 +94,15 @@ func (p *Parser) ParseReturnStatement() *ast.ReturnStatement {
 	return stmt
 }
 
+// rejectDeclarationAsBody records an error when the body of an if/else/while/for is a let
+// declaration (or, for loops, a function declaration): JavaScript does not allow a declaration
+// in a single-statement context. Parsing continues, so the tree is still built.
+func (p *Parser) rejectDeclarationAsBody(loop bool) {
+	if p.CurrentToken.Type == token.LET || (loop && p.CurrentToken.Type == token.FUNCTION) {
+		p.AddError("declaration not allowed as the body of a statement; wrap it in a block")
+	}
+}
+
 func (p *Parser) ParseIfStatement() *ast.IfStatement {
 	stmt := &ast.IfStatement{Token: p.CurrentToken}
 	if !p.ExpectToken(token.LPAREN) {
@@ -105,10 +114,12 @@ func (p *Parser) ParseIfStatement() *ast.IfStatement {
 		return nil
 	}
 	p.NextToken()
+	p.rejectDeclarationAsBody(false)
 	stmt.ThenBranch = p.statementParseFn(p)
 	if p.PeekToken.Type == token.ELSE {
 		p.NextToken()
 		p.NextToken()
+		p.rejectDeclarationAsBody(false)
 		stmt.ElseBranch = p.statementParseFn(p)
 	}
 	return stmt
@@ -125,6 +136,7 @@ func (p *Parser) ParseWhileStatement() *ast.WhileStatement {
 		return nil
 	}
 	p.NextToken()
+	p.rejectDeclarationAsBody(true)
 	stmt.Body = p.statementParseFn(p)
 	return stmt
 }
@@ -161,6 +173,7 @@ func (p *Parser) ParseForStatement() *ast.ForStatement {
 		return nil
 	}
 	p.NextToken()
+	p.rejectDeclarationAsBody(true)
 	stmt.Body = p.statementParseFn(p)
 	return stmt
 }
